@@ -127,6 +127,12 @@ Step ==
      THEN \* C16 with two samples racing: once both have returned, the last value delivered equals the estimate
           /\ UNCHANGED <<ok, cfg, st>>
           /\ e.last # e.est => Rej(e, "notify", "two concurrent samples: the last value delivered to the listener differs from EstimatedLimit", [est |-> e.est, last |-> e.last])
+     ELSE IF e.ev = "Inside"
+     THEN \* C16, seen from inside the notification: a listener that reads the estimate back while it is being told (possible
+          \* for the settable limit, whose estimate is read without its mutex, bare or behind a wrapper) reads the value it was given
+          /\ UNCHANGED <<ok, cfg, st>>
+          /\ (\E i \in 1..Len(e.pairs) : e.pairs[i][1] # e.pairs[i][2]) =>
+                Rej(e, "notify", "a listener reading the estimate back during its notification saw another value than it was given", [pairs |-> e.pairs])
      ELSE IF e.ev = "Dwell"
      THEN \* C04 on a grid of (smoothing, bound) pairs: the range of the reported estimate while the algorithm is pinned on its
           \* floor and then on its ceiling
